@@ -44,10 +44,16 @@ def run(ck):
                       "fault-free result, with no leak and no allocator misuse (ASan/UBSan). copy_file and file_equals fallbacks are exercised by C14/C15.")
     ck.assumptions += ["a refusing allocator returns NULL and leaves its other blocks intact"]
     if not ck.build_driver(): return
-    mods = ["ZixModel.Properties.C07"]
+    mods = ["ZixModel.Properties.C07", "ZixModel.Properties.C07Env"]
     if not ck.prove(mods):
         ck.report_proof_failure("allocation-failure theorems no longer build")
     q = ck.tier == "quick"
+    # environment expansion under an arbitrary refusal pattern: result and allocator events vs Model/EnvAlloc.lean
+    # (theorems expandA_atomic_leak_free, expandA_no_fault_succeeds)
+    import c16 as envgen
+    eexe = envgen.build_harness(ck)
+    if not eexe: return
+    ck.kcompare("env", eexe, "c16", envgen.alloc_histories(ck), corpus_prefix="env", what="zix_expand_environment_strings under refused allocations differs from the model (result or allocator events)")
     # ---- B-tree
     cfgs = bc.build(ck, pages=[(64, 24, False), (128, 24, True)])
     if not cfgs: return
